@@ -26,7 +26,7 @@ BIN = ['and', 'or', 'implies', 'iff', 'xor', 'add', 'sub', 'mul', 'leq', 'lt', '
 BINT = ['since_t', 'until_t']
 
 
-def h_op(f, ns, start='zero', kind='offline', same_start=False, grids=None):
+def h_op(f, ns, start='zero', kind='offline', same_start=False, grids=None, itext=None):
     f = T(f)
     op = f[0]
     binary = op in BIN or op in BINT
@@ -37,7 +37,8 @@ def h_op(f, ns, start='zero', kind='offline', same_start=False, grids=None):
     def body(env):
         A = env.A
         vs = ['x', 'y'] if binary else ['x']
-        s = ct.make_spec(kind, 'out = ' + text(f), vs)
+        # itext: the same bounds written with units (the oracle keeps using the bounds in seconds)
+        s = ct.make_spec(kind, 'out = ' + (text(f).replace('[%d,%d]' % (a, b), itext) if itext else text(f)), vs)
         if grids:
             # concrete (unaligned) time-stamps, symbolic values: more samples per signal at the price of fixed sampling instants
             sigs = [ct.signal(env, v, len(g), start, grid=g) for v, g in zip(vs, grids)]
@@ -152,6 +153,12 @@ def obligations(tier, rng):
               ('geq', X, C05), ('once', ('once', X)), ('and', ('once_t', X, 0, 1), ('always_t', Y, 0, 1))]:
         two = len(refsem.variables(f)) > 1
         out.append(ob('C04', 'nested', 'reuse/%s' % text(f), f=f, ns=[2, 2] if two else [3], twice=True, max_paths=60000, wall=900))
+    # bounds written with units (both bounds with different units, one-sided, the same unit twice)
+    for k in UNT + BINT:
+        f = (k, X, 1, 2) if k in UNT else (k, X, Y, 1, 2)
+        for itext in (['[1000ms,2s]', '[1s,2000ms]'] if quick else ['[1000ms,2s]', '[1s,2000ms]', '[1000ms,2000ms]', '[1,2s]', '[1s,2]', '[1000000us,2s]']):
+            out.append(ob('C04', 'op', 'units/%s/%s/n=%s' % (k, itext, [2, 2] if k in BINT else [3]), f=f, ns=[2, 2] if k in BINT else [3], itext=itext,
+                          max_paths=60000, wall=900))
     # a variable read twice by pointwise operators next to a variable with other break-points; and the same data objects evaluated twice
     C2 = ('const', 2.0)
     rep = [('and', ('leq', X, Y), ('leq', Y, C2)), ('or', ('sub', X, Y), Y), ('and', ('and', X, Y), Y), ('implies', ('geq', X, Y), ('neg', Y)),
